@@ -24,7 +24,7 @@ type genOpts struct {
 	NoTopLoopVar bool        // avoid `for v := range` at top level (vm-loopvar-global)
 }
 
-type gvar struct {
+type bcGvar struct {
 	name string
 	typ  string
 	keys []string // map: keys certainly present
@@ -32,9 +32,9 @@ type gvar struct {
 	ro   bool     // never assigned by generated statements (loop counters, loop variables)
 }
 
-type gscope struct{ vars []*gvar }
+type gscope struct{ vars []*bcGvar }
 
-type progGen struct {
+type bcProgGen struct {
 	rng    *rand.Rand
 	o      genOpts
 	b      strings.Builder
@@ -46,10 +46,10 @@ type progGen struct {
 	feat   map[string]int
 }
 
-var genTypes = []string{"num", "num", "num", "bool", "string", "[]num", "[]string", "{}num"}
+var bcGenTypes = []string{"num", "num", "num", "bool", "string", "[]num", "[]string", "{}num"}
 
 func genProgram(rng *rand.Rand, o genOpts) (string, map[string]int) {
-	g := &progGen{rng: rng, o: o, feat: map[string]int{}}
+	g := &bcProgGen{rng: rng, o: o, feat: map[string]int{}}
 	g.scopes = []*gscope{{}}
 	// accumulators: every later variable can be "used" by folding it into one of these
 	g.line(0, "gn := 0")
@@ -57,7 +57,7 @@ func genProgram(rng *rand.Rand, o genOpts) (string, map[string]int) {
 	g.line(0, "gb := false")
 	g.line(0, "ga := [1 2 3]")
 	g.line(0, "gm := {a:1 b:2}")
-	g.scopes[0].vars = []*gvar{{name: "gn", typ: "num"}, {name: "gs", typ: "string", alen: 1}, {name: "gb", typ: "bool"},
+	g.scopes[0].vars = []*bcGvar{{name: "gn", typ: "num"}, {name: "gs", typ: "string", alen: 1}, {name: "gb", typ: "bool"},
 		{name: "ga", typ: "[]num", alen: 3}, {name: "gm", typ: "{}num", keys: []string{"a", "b"}}}
 	n := 1 + rng.Intn(o.MaxStmts)
 	g.block(0, n, 0)
@@ -70,19 +70,19 @@ func genProgram(rng *rand.Rand, o genOpts) (string, map[string]int) {
 	return g.b.String(), g.feat
 }
 
-func (g *progGen) line(ind int, s string) {
+func (g *bcProgGen) line(ind int, s string) {
 	g.b.WriteString(strings.Repeat("    ", ind))
 	g.b.WriteString(s)
 	g.b.WriteByte('\n')
 }
 
-func (g *progGen) fresh(prefix string) string {
+func (g *bcProgGen) fresh(prefix string) string {
 	g.nid++
 	return fmt.Sprintf("%s%d", prefix, g.nid)
 }
 
-func (g *progGen) varsOf(typ string) []*gvar {
-	var out []*gvar
+func (g *bcProgGen) varsOf(typ string) []*bcGvar {
+	var out []*bcGvar
 	for _, s := range g.scopes {
 		for _, v := range s.vars {
 			if v.typ == typ {
@@ -93,7 +93,7 @@ func (g *progGen) varsOf(typ string) []*gvar {
 	return out
 }
 
-func (g *progGen) pickVar(typ string) *gvar {
+func (g *bcProgGen) pickVar(typ string) *bcGvar {
 	if g.litOnly > 0 && (typ == "string" || strings.HasPrefix(typ, "[]")) {
 		return nil
 	}
@@ -108,14 +108,14 @@ var genNums = []string{"0", "1", "2", "3", "7", "10", "0.5", "2.25", "100", "100
 var genStrs = []string{`"a"`, `"bc"`, `""`, `"hello"`, `"x y"`, `"Z"`, `"abc"`, `"q\"t"`, `"tab\there"`}
 var genStrsNonASCII = []string{`"äb"`, `"héllo"`, `"日本"`, `"a€c"`}
 
-func (g *progGen) numLit() string {
+func (g *bcProgGen) numLit() string {
 	if g.rng.Intn(4) == 0 {
 		return fmt.Sprint(g.rng.Intn(2000))
 	}
 	return genNums[g.rng.Intn(len(genNums))]
 }
 
-func (g *progGen) strLit() string {
+func (g *bcProgGen) strLit() string {
 	if g.o.Classes["byte-strings"] && g.rng.Intn(2) == 0 {
 		g.feat["nonascii"]++
 		return genStrsNonASCII[g.rng.Intn(len(genStrsNonASCII))]
@@ -124,7 +124,7 @@ func (g *progGen) strLit() string {
 }
 
 // smallIdx returns an index literal valid for a sequence with at least n elements.
-func (g *progGen) smallIdx(n int) string {
+func (g *bcProgGen) smallIdx(n int) string {
 	if n <= 0 {
 		return "0"
 	}
@@ -132,7 +132,7 @@ func (g *progGen) smallIdx(n int) string {
 	return fmt.Sprint(i)
 }
 
-func (g *progGen) expr(typ string, d int) string {
+func (g *bcProgGen) expr(typ string, d int) string {
 	r := g.rng
 	leaf := d <= 0 || r.Intn(3) == 0
 	switch typ {
@@ -276,7 +276,7 @@ func (g *progGen) expr(typ string, d int) string {
 
 // growRight generates the right operand of a concatenation: inside loops it
 // must not mention variables, otherwise sizes double per iteration.
-func (g *progGen) growRight(typ string, d int) string {
+func (g *bcProgGen) growRight(typ string, d int) string {
 	if g.loops > 0 {
 		g.litOnly++
 		defer func() { g.litOnly-- }()
@@ -284,7 +284,7 @@ func (g *progGen) growRight(typ string, d int) string {
 	return g.expr(typ, d)
 }
 
-func (g *progGen) arrLit(el string, d int) string {
+func (g *bcProgGen) arrLit(el string, d int) string {
 	n := 1 + g.rng.Intn(3)
 	parts := make([]string, n)
 	for i := range parts {
@@ -293,7 +293,7 @@ func (g *progGen) arrLit(el string, d int) string {
 	return "[" + strings.Join(parts, " ") + "]"
 }
 
-func (g *progGen) mapLit(d int) (string, []string) {
+func (g *bcProgGen) mapLit(d int) (string, []string) {
 	keys := []string{"a", "b", "c", "d"}
 	g.rng.Shuffle(len(keys), func(i, j int) { keys[i], keys[j] = keys[j], keys[i] })
 	n := 1 + g.rng.Intn(3)
@@ -305,7 +305,7 @@ func (g *progGen) mapLit(d int) (string, []string) {
 }
 
 // use emits a statement reading v (folding it into an accumulator of its type).
-func (g *progGen) use(ind int, v *gvar) {
+func (g *bcProgGen) use(ind int, v *bcGvar) {
 	switch v.typ {
 	case "num":
 		g.line(ind, "gn = gn + "+v.name)
@@ -332,7 +332,7 @@ func (g *progGen) use(ind int, v *gvar) {
 	}
 }
 
-func (g *progGen) staticLen(typ, e string) int {
+func (g *bcProgGen) staticLen(typ, e string) int {
 	// length certainly available: only for plain literals
 	if strings.HasPrefix(e, "[") && strings.HasSuffix(e, "]") && !strings.Contains(e[1:], "[") && !strings.Contains(e, ":") {
 		depth, n, tok := 0, 0, false
@@ -361,14 +361,14 @@ func (g *progGen) staticLen(typ, e string) int {
 }
 
 // block emits n statements at indentation ind inside the current scope.
-func (g *progGen) block(ind, n, depth int) {
+func (g *bcProgGen) block(ind, n, depth int) {
 	for i := 0; i < n; i++ {
 		g.stmt(ind, depth)
 	}
 }
 
 // enter/leave a nested block scope; on leave every variable of the scope is used.
-func (g *progGen) nested(ind, depth int, pre func()) {
+func (g *bcProgGen) nested(ind, depth int, pre func()) {
 	g.scopes = append(g.scopes, &gscope{})
 	if pre != nil {
 		pre()
@@ -381,7 +381,7 @@ func (g *progGen) nested(ind, depth int, pre func()) {
 	g.scopes = g.scopes[:len(g.scopes)-1]
 }
 
-func (g *progGen) stmt(ind, depth int) {
+func (g *bcProgGen) stmt(ind, depth int) {
 	r := g.rng
 	g.stmts++
 	ed := g.o.ExprDepth
@@ -396,9 +396,9 @@ func (g *progGen) stmt(ind, depth int) {
 	}
 	switch {
 	case k < 18: // declaration
-		typ := genTypes[r.Intn(len(genTypes))]
+		typ := bcGenTypes[r.Intn(len(bcGenTypes))]
 		name := g.fresh("v")
-		v := &gvar{name: name, typ: typ}
+		v := &bcGvar{name: name, typ: typ}
 		var e string
 		if typ == "{}num" {
 			e, v.keys = g.mapLit(ed)
@@ -413,7 +413,7 @@ func (g *progGen) stmt(ind, depth int) {
 			g.use(ind, v)
 		}
 	case k < 32: // assignment to a variable
-		typ := genTypes[r.Intn(len(genTypes))]
+		typ := bcGenTypes[r.Intn(len(bcGenTypes))]
 		v := g.pickVar(typ)
 		if v == nil || v.ro {
 			g.line(ind, "gn = gn + 1")
@@ -477,7 +477,7 @@ func (g *progGen) stmt(ind, depth int) {
 			g.line(ind, fmt.Sprintf("%s := [[1 2]] * 2", name))
 			g.line(ind, fmt.Sprintf("%s[0][0] = %s", name, g.numLit()))
 			g.line(ind, fmt.Sprintf("gn = gn + %s[1][0]", name))
-			cur.vars = append(cur.vars, &gvar{name: name, typ: "[][]num"})
+			cur.vars = append(cur.vars, &bcGvar{name: name, typ: "[][]num"})
 			if ind == 0 {
 				g.line(ind, name+" = "+name)
 			}
@@ -504,7 +504,7 @@ func (g *progGen) stmt(ind, depth int) {
 		g.feat["while"]++
 		c := g.fresh("c")
 		g.line(ind, c+" := 0")
-		cv := &gvar{name: c, typ: "num", ro: true}
+		cv := &bcGvar{name: c, typ: "num", ro: true}
 		cur.vars = append(cur.vars, cv)
 		g.line(ind, fmt.Sprintf("while %s < %d", c, 1+r.Intn(4)))
 		g.loops++
@@ -550,7 +550,7 @@ func (g *progGen) stmt(ind, depth int) {
 	}
 }
 
-func (g *progGen) maybeBreak(ind int) {
+func (g *bcProgGen) maybeBreak(ind int) {
 	if g.rng.Intn(3) == 0 {
 		g.feat["break"]++
 		g.line(ind, "if "+g.expr("bool", 1))
@@ -559,7 +559,7 @@ func (g *progGen) maybeBreak(ind int) {
 	}
 }
 
-func (g *progGen) forLoop(ind, depth int, elTyp, rng string) {
+func (g *bcProgGen) forLoop(ind, depth int, elTyp, rng string) {
 	withVar := g.rng.Intn(4) != 0
 	if g.o.NoTopLoopVar && len(g.scopes) == 1 {
 		withVar = false
@@ -570,7 +570,7 @@ func (g *progGen) forLoop(ind, depth int, elTyp, rng string) {
 		g.line(ind, "for "+lv+" := "+rng)
 		g.nested(ind+1, depth+1, func() {
 			// the loop variable lives in the loop's scope for the parser
-			v := &gvar{name: lv, typ: elTyp, ro: true}
+			v := &bcGvar{name: lv, typ: elTyp, ro: true}
 			sc := g.scopes[len(g.scopes)-1]
 			sc.vars = append(sc.vars, v)
 			g.maybeBreak(ind + 1)
@@ -584,7 +584,7 @@ func (g *progGen) forLoop(ind, depth int, elTyp, rng string) {
 }
 
 // constructs outside the compiler's supported subset
-func (g *progGen) unsupported(ind int) {
+func (g *bcProgGen) unsupported(ind int) {
 	r := g.rng
 	forms := []func() (string, string){
 		func() (string, string) { return "print gn", "print" },
